@@ -25,6 +25,15 @@ import vlib
 
 LEVEL = "model_checking"
 
+
+def _layout_for(cid):
+    """the value a program denotes must not depend on the layout of the IDL text: programs are rendered under a
+    layout chosen from lib/idl.py LAYOUTS by a hash of the case id (default, TAB after every number/literal, CRLF)"""
+    import idl
+    h = sum(ord(ch) for ch in str(cid))
+    return idl.LAYOUTS[h % len(idl.LAYOUTS)]
+
+
 REGISTRY = dict(
     level="model_checking",
     text="The meaning of an IDL initializer is an explicit TLA+ evaluator (name resolution through typedef chains, includes, "
@@ -325,7 +334,7 @@ class Runner:
     def add(self, unit):
         if unit.prog is not None:          # replay: the program is given
             self.units[unit.cid] = unit
-            self.lab.add_case(unit.cid, unit.prog, unit.opts)
+            self.lab.add_case(unit.cid, unit.prog, unit.opts, layout=_layout_for(unit.cid))
             return
         # use_type_alias=false: the serialization code generated for fields (or container elements) whose type is a
         # typedef of a base type or struct-like does not compile (C01's business, not a statement about constants or
@@ -341,7 +350,7 @@ class Runner:
                     keep.setdefault(0, set()).add("k_i32_c")      # the include stays in use without the struct
             prune(unit.prog, keep)
         self.units[unit.cid] = unit
-        self.lab.add_case(unit.cid, unit.prog, unit.opts)
+        self.lab.add_case(unit.cid, unit.prog, unit.opts, layout=_layout_for(unit.cid))
 
     def with_struct(self, unit, tc):
         if tc["way"] in model.NO_STRUCT_WAYS:
